@@ -127,6 +127,7 @@ def chk_case(inp, c):
             c.cell("unmet:only-vanishing-scales")
             c.unmet("only vanishing scales are feasible (targets cannot be scaled into the gamut)")
     est = gen.live_or_new(c, dreye, inp)
+    del c.events[:]          # only the events of the judged call
     kw = dict(solver=cp.CLARABEL) if inp["solver"] == "clarabel" else {}
     okc, out = c.try_call(est.fit_adaptive, B.copy(), neutral_point=(None if inp["neutral"] is None else inp["neutral"].copy()),
                           delta_norm1=d1, delta_radius=dr, adaptive_objective=obj, scale_w=inp["scale_w"], **kw)
